@@ -19,6 +19,7 @@ TRACE_CFG = 'SPECIFICATION Spec\nINVARIANT VerdictOk\nCHECK_DEADLOCK FALSE\n'
 L.CATALOGUE.setdefault('IGAB', ('re', 'ab+', ''))
 L.CATALOGUE.setdefault('C', ('str', 'c', ''))
 L.CATALOGUE.setdefault('D', ('str', 'd', ''))
+L.CATALOGUE.setdefault('X_BA', ('re', 'ba', ''))
 KEPT = ['A', 'B', 'AB', 'C', 'D', 'IF', 'LOW', 'NUM', 'AS', 'ONE', 'PLUS', 'EQ', 'IDENT']
 IGN = ['SPT', 'WS', 'IGAB', 'SP', 'COMMENT']
 ALPHA = 'abcd if1+= \n#'
@@ -106,8 +107,24 @@ def observe_case(spec):
                         real.append([s, e, bool(vok), bool(cok)])
             except Exception as ex:
                 exc = type(ex).__name__
+            # the statement read over SUBSTRINGS: every [s, e) whose text parses on its own with no ignored text at either end
+            # (the first fed token starts the snippet, the last one ends it) - for unwindowed str runs of the first texts
+            sub, hassub = [], False
+            if not use_bytes and a == 0 and b == len(text) and not exc and spec.get('substr') and len(text) <= 9:
+                hassub = True
+                for s0 in range(len(text)):
+                    for e0 in range(s0 + 1, len(text) + 1):
+                        try:
+                            with O.budget(5):
+                                ip = p.parse_interactive(text[s0:e0])
+                                fed = list(ip.iter_parse())
+                                ip.feed_eof(fed[-1] if fed else None)
+                            if fed and fed[0].start_pos == 0 and fed[-1].end_pos == e0 - s0:
+                                sub.append([s0, e0])
+                        except Exception:
+                            pass
             M = L.match_table(terms, buf, a, b, use_bytes=use_bytes)
-            case['runs'].append({'n': b, 'a': a, 'M': M, 'contextual': lx == 'contextual', 'real': real, 'exc': exc,
+            case['runs'].append({'n': b, 'a': a, 'M': M, 'contextual': lx == 'contextual', 'real': real, 'exc': exc, 'sub': sub, 'hassub': hassub,
                                  'label': {'text': text, 'window': [a, b], 'bytes': use_bytes, 'lexer': lx}})
     return case
 
@@ -126,7 +143,12 @@ def specs(tier, rng):
             runs.append([text, a, b, rng.random() < 0.25])
         for text in ('abbcx', 'abbcd', 'ab ab', 'if a=1 b', 'a\nb c\nd'):
             runs.append([text, 0, len(text), False])
-        out.append({'gtext': g, 'terms': [(t.name, t.key, t.prio, t.ign) for t in terms], 'runs': runs})
+        out.append({'gtext': g, 'terms': [(t.name, t.key, t.prio, t.ign) for t in terms], 'runs': runs, 'substr': i % 2 == 0})
+    # maximal munch beyond the end of a snippet that parses, and a match start inside a prefix the attempt ignored (hunted, DESIGN 7b)
+    out.append({'gtext': 'start: (A | AB C)+\nA: "a"\nAB: "ab"\nC: "c"\n', 'terms': [('A', 'A', 0, False), ('AB', 'AB', 0, False), ('C', 'C', 0, False)],
+                'runs': [[t, 0, len(t), False] for t in ('aab', 'aabc', 'ab', 'aaab')], 'substr': True})
+    out.append({'gtext': 'start: A | B\nA: "a"\nB: "b"\nIG: /ba/\n%ignore IG\n', 'terms': [('A', 'A', 0, False), ('B', 'B', 0, False), ('IG', 'X_BA', 0, True)],
+                'runs': [[t, 0, len(t), False] for t in ('baa', 'ba', 'bba')], 'substr': True})
     # the shape that hides a match inside text an earlier attempt ignored
     fixed = 'start: A C | B C | C D\nA: "a"\nB: "b"\nC: "c"\nD: "d"\nIG: /ab+/\n%ignore IG\n'
     out.append({'gtext': fixed, 'terms': [('A', 'A', 0, False), ('B', 'B', 0, False), ('C', 'C', 0, False), ('D', 'D', 0, False), ('IG', 'IGAB', 0, True)],
@@ -140,7 +162,7 @@ def judge(cases, ev, rep, tmp, name):
     keys = ('T', 'rank', 'SM', 'rules', 'start')
     for off in range(0, len(cases), CH):
         chunk = cases[off:off + CH]
-        batch = {'cases': [dict({k: c[k] for k in keys}, runs=[{k: r[k] for k in ('n', 'a', 'M', 'contextual', 'real', 'exc')} for r in c['runs']]) for c in chunk]}
+        batch = {'cases': [dict({k: c[k] for k in keys}, runs=[{k: r[k] for k in ('n', 'a', 'M', 'contextual', 'real', 'exc', 'sub', 'hassub')} for r in c['runs']]) for c in chunk]}
         jobs.append((chunk, C.write_batch(batch, tmp, 'c14_%s_%d.json' % (name, off))))
     results = C.tlc_parallel('TraceScan', TRACE_CFG, [j[1] for j in jobs], continue_=True, timeout=3000)
     for (chunk, path), res in zip(jobs, results):
@@ -161,7 +183,7 @@ def judge(cases, ev, rep, tmp, name):
 
 def body(tier, seed, replay):
     ev = C.Evidence(PID, tier, seed)
-    rep = C.Reporter(PID, ev)
+    rep = C.Reporter(PID, ev, lambda fnd, case: fnd['match']['kind'] == 'lexed-in-context' and case.get('clause', '').endswith('@lexed-in-context'))
     rng = random.Random(seed)
     tmp = C.scratch_dir('c14_')
     try:
